@@ -1,6 +1,7 @@
 ---- MODULE FrostMC ----
 (* Exhaustive design check of one ceremony.
    PolyMode  "all"   every node picks among ALL polynomials of the field (the algebra, for every secret and mask)
+             "most"  all nodes but the last pick among all polynomials, the last among 2 (quick tier)
              "few"   every node picks among 2 polynomials (used with free delivery order)
    OrderMode "free"  every interleaving of the deliveries and of the nodes' progress
              "canon" one canonical interleaving (the results do not depend on the order: that is what the "free"
@@ -11,7 +12,7 @@ EXTENDS Frost
 CONSTANTS MCP, MCN, MCTs, MCVs, PolyMode, OrderMode
 MCInit == \E t \in MCTs, nv \in MCVs : t <= MCN /\ InitWith(MCN, t, nv, MCP)
 Few(i) == {[v \in Vals |-> [k \in 1..LibThreshold |-> Mod(i + 2 * v + a * k * k + (a - 1) * i * k)]] : a \in {1, 2}}
-Polys(i) == IF PolyMode = "all" THEN [Vals -> [1..LibThreshold -> Zp]] ELSE Few(i)
+Polys(i) == IF PolyMode = "all" \/ (PolyMode = "most" /\ i < par.n) THEN [Vals -> [1..LibThreshold -> Zp]] ELSE Few(i)
 Pend1C == {m \in Nodes \X Nodes : m[1] # m[2] /\ phase[m[1]] # "idle" /\ m[1] \notin got1c[m[2]]}
 Pend1P == {m \in Nodes \X Nodes : m[1] # m[2] /\ phase[m[1]] # "idle" /\ m[1] \notin got1p[m[2]]}
 Pend2 == {m \in Nodes \X Nodes : m[1] # m[2] /\ phase[m[1]] \in {"r2", "done"} /\ m[1] \notin got2[m[2]]}
